@@ -179,7 +179,7 @@ def _install_public(g: GCodeBuilder, pre) -> None:
                 g.set_distance_mode("absolute")
             sync = {a: v for a, v, k in zip("xyz", pos, mk) if v is not None and k}
             g.set_axis(**sync, **pre["params"])
-            lost = {a: 0 for a, v in zip("xyz", pos) if v is None}
+            lost = {a: 5.0 for a, v in zip("xyz", pos) if v is None}
             if lost and (drift or sync):
                 g.auto_home(**lost)
         elif pre["params"]:
